@@ -18,7 +18,8 @@ package server
 //@     (has(resp.Options, 61) <==> has(req.Options, 61)) && resp.Options[61] == req.Options[61]
 //@ pure func mirrors4(resp *dhcpv4.DHCPv4, req *dhcpv4.DHCPv4) bool = hdr4(resp, req) && opts4(resp, req)
 // OFFER for DISCOVER, ACK for REQUEST
-//@ pure func answers4(resp *dhcpv4.DHCPv4, req *dhcpv4.DHCPv4) bool = (mtof(req.Options) == 1 && mtof(resp.Options) == 2) || (mtof(req.Options) == 3 && mtof(resp.Options) == 5)
+// OFFER for DISCOVER, ACK (or NAK, if a plugin made it one) for REQUEST
+//@ pure func answers4(resp *dhcpv4.DHCPv4, req *dhcpv4.DHCPv4) bool = (mtof(req.Options) == 1 && mtof(resp.Options) == 2) || (mtof(req.Options) == 3 && (mtof(resp.Options) == 5 || mtof(resp.Options) == 6))
 
 //@ func sendEthernet
 //@   requires valid4(resp)
